@@ -61,6 +61,7 @@ func (c *Ctx) execInstr(in ssa.Instruction, st *State) {
 		}
 		r := c.newRef("alloc_" + x.Comment)
 		c.storeObj(st, r, et, c.zeroVal(et))
+		c.initGhostFields(st, r, et)
 		c.set(x, &Val{K: VScalar, T: x.Type(), S: r})
 	case *ssa.FieldAddr:
 		c.fieldAddr(x, st)
@@ -150,8 +151,31 @@ func (c *Ctx) execInstr(in ssa.Instruction, st *State) {
 		c.drop("next")
 		c.curReachFresh(x, st)
 	case *ssa.Select:
+		v := c.freshVal(x.Type(), "select")
+		// chanlink T.field ghost: a non-blocking receive from that channel field succeeds
+		// exactly when the ghost field of the owning object is set (closed channel)
+		if !x.Blocking && len(x.States) == 1 {
+			if ld, ok := x.States[0].Chan.(*ssa.UnOp); ok && ld.Op == token.MUL {
+				if fa, ok := ld.X.(*ssa.FieldAddr); ok {
+					if g, ok := c.P.CS.ChanLinks[fieldName(fa)]; ok {
+						base := c.operand(fa.X, st)
+						name := "G|" + g
+						c.registerMap(name, "(Array Int Bool)")
+						set := "(select " + c.lookup(st, name) + " " + base.S + ")"
+						it := types.Typ[types.Int]
+						idx := sIte(set, c.intConst(big.NewInt(0), it), c.intConst(big.NewInt(-1), it))
+						nv := *v
+						nv.F = append([]*Val{{K: VScalar, T: it, S: idx}}, v.F[1:]...)
+						c.set(x, &nv)
+						c.chanLinksUsed[fieldName(fa)+" <-> "+g] = true
+						c.definesUsed["channel link: a non-blocking receive from "+fieldName(fa)+" succeeds iff "+g+"(owner)"] = true
+						return
+					}
+				}
+			}
+		}
 		c.drop("select")
-		c.set(x, c.freshVal(x.Type(), "select"))
+		c.set(x, v)
 	case *ssa.Send:
 		c.drop("send")
 	case *ssa.SliceToArrayPointer:
